@@ -229,6 +229,25 @@ def run_tlc(module, cfg, files=None, workers=None, timeout=600, simulate=None, d
             rm(d)
 
 
+def run_tlapm(module, timeout=900):
+    """Check the proofs of /verif/spec/<module>.tla with the TLA+ proof system in a scratch copy; returns (obligations, proved)."""
+    d = scratch("tlapm_" + module)
+    try:
+        shutil.copy(os.path.join(SPEC, module + ".tla"), d)
+        try:
+            p = subprocess.run(["tlapm", "--threads", "8", "--cleanfp", module + ".tla"], cwd=d, stdout=subprocess.PIPE, stderr=subprocess.STDOUT,
+                               text=True, timeout=timeout)
+        except subprocess.TimeoutExpired:
+            raise Broken("tlapm timed out on %s" % module)
+        m = re.search(r"All (\d+) obligations? proved", p.stdout)
+        if m:
+            return int(m.group(1)), int(m.group(1))
+        m2 = re.search(r"(\d+)/(\d+) obligations? failed", p.stdout)
+        raise Broken("tlapm did not prove %s: %s\n%s" % (module, m2.group(0) if m2 else "", p.stdout[-2000:]))
+    finally:
+        rm(d)
+
+
 def load_known():
     if not os.path.exists(KNOWN):
         return {"findings": [], "fixed": []}
